@@ -20,7 +20,8 @@ Record observed := OBS {
 Record ecase := EC {
   ec_id : nat; ec_mode : mode; ec_sch : sch; ec_data : data; ec_dest0 : dval;
   ec_known : bool; ec_collide : bool; ec_ctxok : bool; ec_repeat : bool;
-  ec_fmt : option string;      (* the execution's formatter, if one was given: it sets prefix ++ code *)
+  ec_opts : list eopt;         (* the call's execution options, in the order they were passed *)
+  ec_views : list (list (string * option string));   (* the distinct answers of ctx.Get over the probe keys, as the callbacks saw them *)
   ec_obs : observed }.
 
 (** ** equalities *)
@@ -224,8 +225,8 @@ Definition tags_for (c : ecase) (s : sch) : list string :=
    ++ t "issues" (issues_agree 0 exact lm is o)
    ++ t "dtype" (issues_agree 1 exact lm is o)
    ++ t "params" (issues_agree 2 exact lm is o)
-   ++ t "msg" (issues_agree_f (ec_fmt c) 3 exact lm is o)
-   ++ t "haserr" (issues_agree_f (ec_fmt c) 4 exact lm is o)
+   ++ t "msg" (issues_agree_f (call_fmt (ec_opts c)) 3 exact lm is o)
+   ++ t "haserr" (issues_agree_f (call_fmt (ec_opts c)) 4 exact lm is o)
    ++ t "first" (first_agrees known is o)
    ++ t "dest" (dval_same (o_dest out) (ob_dest o))
    ++ t "calls" (calls_agree false known (o_calls out) o)
@@ -233,12 +234,19 @@ Definition tags_for (c : ecase) (s : sch) : list string :=
 
 Definition max_orders : N := 150%N.
 
+(** every callback of the call read, under every probed key, what the call's own options put there
+    (the recycled context object is an adversary: the model's answer does not depend on it) *)
+Definition opt_str_eqb (a b : option string) : bool :=
+  match a, b with Some x, Some y => String.eqb x y | None, None => true | _, _ => false end.
+Definition views_agree (opts : list eopt) (views : list (list (string * option string))) : bool :=
+  forallb (fun view => forallb (fun kv => opt_str_eqb (ctx_value {| e_fmt := Some "dirty"; e_vals := [("k1", "dirty"); ("k8", "dirty")] |} opts (fst kv)) (snd kv)) view) views.
+
 (** model-free oracles evaluated on what the implementation returned *)
 Definition oracle_tags (c : ecase) : list string :=
   let o := ec_obs c in
   let t (name : string) (ok : bool) := if ok then [] else [name] in
   (t "panic" (negb (ob_panic o))
-   ++ t "ctx" (ec_ctxok c)
+   ++ t "ctx" (ec_ctxok c && views_agree (ec_opts c) (ec_views c))
    ++ t (if pt_free (ec_sch c) then "repeat" else "repeat_ptgate") (ec_repeat c)
    ++ t "sat" (negb (ob_nil o) || negb (pt_free (ec_sch c)) || satisfies (ec_mode c) (ec_sch c) (ec_data c) (ob_dest o)))%list.
 
